@@ -212,6 +212,7 @@ def strip_comments(src):
 
 def btokenize(text, fn):
     text = re.sub(r"#ifdef\s+ASSERT\s*\n(?:\s*ASSERT\s*\([^\n]*\)\s*;\s*\n)*\s*#endif", " ", text)
+    text = re.sub(r"#ifdef\s+_MSC_VER\s*\n[^#]*#else\s*\n([^#]*)#endif", r"\1", text)     # not the Microsoft compiler
     if "#" in text:
         raise Untranslatable(f"{fn}: preprocessor directive inside the body")
     toks, pos = [], 0
@@ -304,6 +305,22 @@ class BP:
                 e = self.expr()
             self.eat(";")
             return ("return", e)
+        if tok == "va_list":
+            self.eat(); self.eat(); self.eat(";")
+            return ("block", [])
+        if tok in ("va_start", "va_end", "ASSERT") and self.peek(1) == "(":
+            self.eat(); self.eat("(")
+            depth = 1
+            while depth:
+                x = self.eat()
+                depth += (x == "(") - (x == ")")
+            self.eat(";")
+            return ("block", [])
+        if tok == "int" and IDENT.match(self.peek(1) or "") and self.peek(2) == ";":
+            self.eat()
+            name = self.eat()
+            self.eat(";")
+            return ("declvar", "int", name)
         if tok == "NSTD_VERIF_RC_YIELD":
             self.eat(); self.eat("(")
             depth = 1
@@ -420,6 +437,9 @@ class BP:
         if tok == "*":
             self.eat()
             return ("deref", self.unary())
+        if tok == "-" and re.fullmatch(r"\d+", self.peek(1) or ""):
+            self.eat()
+            return ("inum", -int(self.eat()))
         if tok in ("++", "--", "-", "~", "+"):
             self.refuse(f"operator `{tok}`")
         if tok == "sizeof":
@@ -512,6 +532,7 @@ class BT:
         self.n = 0
         self.tmps = 0                          # extra slots for local String objects
         self.params = params                   # source name -> (lean term, type)
+        self.fmt = next((n for n, (_, ty) in params.items() if ty == "fmt"), None)
 
     def refuse(self, what):
         raise Untranslatable(f"{self.fn}: {what} is outside the translated subset")
@@ -525,6 +546,8 @@ class BT:
         k = e[0]
         if k == "num":
             return str(e[1]), "nat"
+        if k == "inum":
+            return f"({e[1]} : Int)", "int"
         if k == "sizeof":
             return ("1" if e[1] == "char" else "sizeofData"), "nat"
         if k == "this":
@@ -532,6 +555,8 @@ class BT:
         if k == "id":
             x = e[1]
             if x in env:
+                if env[x][1].startswith("unset:"):
+                    self.refuse(f"`{x}` read before it is assigned")
                 return env[x]
             if x == "data":
                 t = self.fresh()
@@ -555,6 +580,8 @@ class BT:
             want = CAST_TYPES[e[1]]
             if (ty, want) in (("cptr", "cptr"), ("nat", "nat"), ("dptr", "dptr")):
                 return t, ty
+            if ty == "int" and want == "nat":
+                return f"(Int.toNat {t})", "nat"
             if ty == "dptr" and want == "cptr":
                 return t, "dptr_as_chars"              # only `delete[]` accepts this
             self.refuse(f"cast of a {ty} to ({e[1]})")
@@ -593,6 +620,15 @@ class BT:
                 self.refuse(f"`{op}` used as a value")
             a, aty = self.ev(e[2], env, out, ind)
             b, bty = self.ev(e[3], env, out, ind)
+            if aty == "int" and e[3][0] == "num":          # int with a literal
+                b, bty = f"({b} : Int)", "int"
+            if bty == "int" and e[2][0] == "num":
+                a, aty = f"({a} : Int)", "int"
+            if op == "+" and aty == "int" and bty == "int":
+                return f"({a} + {b})", "int"
+            if op in ("==", "!=", "<", "<=", ">", ">=") and aty == "int" and bty == "int":
+                lop = {"==": "=", "!=": "≠", "<": "<", "<=": "≤", ">": ">", ">=": "≥"}[op]
+                return f"({a} {lop} {b})", "bool"
             if op in ("+", "*", "|"):
                 if aty == "nat" and bty == "nat":
                     lop = {"+": "+", "*": "*", "|": "|||"}[op]
@@ -674,7 +710,24 @@ class BT:
             r = self.fresh()
             out.append(f"{ind}let {r} ← dRef s {p}")
             return r, "nat"
+        if name == "vsnprintf":
+            # vsnprintf(dst, size, format, ap): `out` = the text the format and its arguments produce (parameter of the function)
+            if len(args) != 4 or args[2] != ("id", self.fmt) or args[3] != ("id", "ap") or self.fmt is None:
+                self.refuse("this call of vsnprintf")
+            if args[0] == ("num", 0):
+                if args[1] != ("num", 0):
+                    self.refuse("vsnprintf(0, n, …) with n != 0")
+                return "(Int.ofNat out.length)", "int"
+            d, dty = self.ev(args[0], env, out, ind)
+            n, nty = self.ev(args[1], env, out, ind)
+            if nty == "int":
+                n, nty = f"(Int.toNat {n})", "nat"
+            if dty != "cptr" or nty != "nat":
+                self.refuse("this call of vsnprintf")
+            out.append(f"{ind}let s ← vsnprintf s {d} {n} out")
+            return "(Int.ofNat out.length)", "int"
         vals = [self.ev(a, env, out, ind) for a in args]
+        vals = [(f"(Int.toNat {t})", "nat") if ty == "int" and name == "detach" else (t, ty) for t, ty in vals]   # int -> usize
         tys = [ty for _, ty in vals]
         if name == "detach" and tys == ["nat", "nat"]:
             if "detach" not in self.known:
@@ -689,6 +742,8 @@ class BT:
     def assign(self, e, env, out, ind):
         lhs, rhs = e[1], e[2]
         v, vty = self.ev(rhs, env, out, ind)
+        if vty == "int" and lhs[0] == "arrow":             # int -> usize
+            v, vty = f"(Int.toNat {v})", "nat"
         if lhs == ("id", "data"):
             if vty != "dptr":
                 self.refuse(f"`data = <{vty}>`")
@@ -741,14 +796,14 @@ class BT:
             self.refuse("`new` that is not followed by `X->str = (char*)((byte*)X + sizeof(Data));`")
         return target, init[2][1]
 
-    def leave(self, env, ind, objs):
+    def leave(self, env, ind, objs, value=None):
         out = []
         for slot in reversed(objs):
             if "dtor" not in self.known:
                 self.refuse("local String before the destructor is translated")
             out.append(f"{ind}let s ← dtor s {slot}")
             out.append(f"{ind}let s := endLife s {slot}")
-        return out + [f"{ind}pure s"]
+        return out + [f"{ind}pure s" if value is None else f"{ind}pure (s, {value})"]
 
     def run(self, stmts, env, ind, objs, ret):
         if not stmts:
@@ -790,6 +845,23 @@ class BT:
             env2 = dict(env)
             env2[name] = (v, ty)
             return out + self.run(rest, env2, ind, objs, ret)
+        if k == "declvar":
+            if s[2] in env:
+                self.refuse(f"`{s[2]}` declared twice")
+            env2 = dict(env)
+            env2[s[2]] = (None, "unset:" + s[1])
+            return self.run(rest, env2, ind, objs, ret)
+        if k == "expr" and s[1][0] == "assign" and s[1][1][0] == "id" and s[1][1][1] in env \
+                and (env[s[1][1][1]][1] == "int" or env[s[1][1][1]][1] == "unset:int"):
+            out = []
+            t, ty = self.ev(s[1][2], env, out, ind)
+            if ty != "int":
+                self.refuse(f"`{s[1][1][1]} = <{ty}>`")
+            v = self.fresh()
+            out.append(f"{ind}let {v} := {t}")
+            env2 = dict(env)
+            env2[s[1][1][1]] = (v, "int")
+            return out + self.run(rest, env2, ind, objs, ret)
         if k == "declobj":
             name, e = s[1], s[2]
             if name in env:
@@ -825,6 +897,12 @@ class BT:
                              lambda env2, ind2: self.run([s[3]] + rest, env2, ind2, objs, ret))
         if k == "return":
             e = s[1]
+            if ret == "int":
+                out = []
+                t, ty = self.ev(e, env, out, ind) if e is not None else (None, None)
+                if ty != "int":
+                    self.refuse("this return value")
+                return out + self.leave(env, ind, objs, t)
             ok = {"void": [None], "ctor": [None], "self": [("deref", ("this",))],
                   "cstr": [("arrow", ("id", "data"), "str"), ("cast", "char*", ("arrow", ("id", "data"), "str")),
                            ("cast", "constchar*", ("arrow", ("id", "data"), "str"))]}[ret]
@@ -860,28 +938,33 @@ BODY_FUNCS = [
     ("prependS", r"String\s*&\s*prepend\s*\(\s*" + P_STR + r"\s*\)", ["obj"], "self", "prepend(const String&)"),
     ("prependP", r"String\s*&\s*prepend\s*\(\s*const\s+char\s*\*\s*(\w+)\s*,\s*usize\s+(\w+)\s*\)", ["cptr", "nat"], "self", "prepend(const char*, usize)"),
 ]
-LEAN_TY = {"nat": "Nat", "obj": "Nat", "cptr": "CPtr"}
+CPP_FUNCS = [
+    ("printf", r"int\s+String::printf\s*\(\s*const\s+char\s*\*\s*(\w+)\s*,\s*\.\.\.\s*\)", ["fmt"], "int", "String::printf(const char*, ...)"),
+]
+LEAN_TY = {"nat": "Nat", "obj": "Nat", "cptr": "CPtr", "fmt": "List Nat"}
 
 
 def generate_body(repo):
     hpp = strip_comments((Path(repo) / "include/nstd/String.hpp").read_text())
     parts = ["/- generated by tools/gen_str.py from include/nstd/String.hpp — do not edit -/", "import Nstd.Str.Mach", "",
              "set_option linter.unusedVariables false", "", "namespace Nstd.Str.Generated.Body", "open Nstd.Str Nstd.Str.Mach", ""]
+    cpp = strip_comments((Path(repo) / "src/String.cpp").read_text())
     known, summary = [], []
-    for lean, rx, ptys, ret, cname in BODY_FUNCS:
-        body, names = extract_body(hpp, cname, rx)
+    for lean, rx, ptys, ret, cname in BODY_FUNCS + CPP_FUNCS:
+        body, names = extract_body(cpp if (lean, rx, ptys, ret, cname) in CPP_FUNCS else hpp, cname, rx)
         p = BP(btokenize(body, cname), cname)
         stmts = p.stmts()
         if p.peek() is not None:
             raise Untranslatable(f"{cname}: trailing tokens")
         if len(set(names)) != len(names) or any(n in ("data", "this", "s") for n in names):
             raise Untranslatable(f"{cname}: parameter names {names}")
-        params = {n: (f"p_{n}", ty) for n, ty in zip(names, ptys)}
+        params = {n: (("out" if ty == "fmt" else f"p_{n}"), ty) for n, ty in zip(names, ptys)}
         tr = BT(cname, params, known)
         lines = tr.run(stmts, dict(params), "  ", [], ret)
-        sig = "(s : St) (this : Nat)" + "".join(f" (p_{n} : {LEAN_TY[ty]})" for n, ty in zip(names, ptys))
+        sig = "(s : St) (this : Nat)" + "".join((" (out : List Nat)" if ty == "fmt" else f" (p_{n} : {LEAN_TY[ty]})") for n, ty in zip(names, ptys))
         sig += "".join(f" (tmp{i + 1} : Nat)" for i in range(tr.tmps))
-        parts += [f"/-- `{cname}` -/", f"def {lean} {sig} : Option St := do"] + lines + [""]
+        rty = "Option (St × Int)" if ret == "int" else "Option St"
+        parts += [f"/-- `{cname}` -/", f"def {lean} {sig} : {rty} := do"] + lines + [""]
         known.append(lean)
         summary.append(f"{lean}:{len(stmts)}")
     parts += ["end Nstd.Str.Generated.Body", ""]
